@@ -136,7 +136,7 @@ def build_sig_script(rng, xonly, allow_codesep, nsig=None, fill=True):
 
 def make(rng, kind=None):
     """-> {"tx": hex, "txin": hex, "kind": kind, "opts": [...]}"""
-    kind = kind or rng.weighted([(3, "p2pkh"), (2, "multisig"), (3, "p2sh-multisig"), (2, "p2sh-generic"), (2, "legacy-codesep"), (2, "p2wpkh"),
+    kind = kind or rng.weighted([(3, "p2pkh"), (2, "multisig"), (3, "p2sh-multisig"), (2, "p2sh-generic"), (1, "p2sh-empty"), (2, "legacy-codesep"), (2, "p2wpkh"),
                                  (1, "p2sh-p2wpkh"), (4, "p2wsh"), (2, "p2sh-p2wsh"), (2, "p2tr"), (7, "tapscript")])
     opts = []
     if kind == "p2pkh":
@@ -170,6 +170,13 @@ def make(rng, kind=None):
         tx = spending_skeleton(fund, rng)
         pushes = b"".join(S.push_num(rng.range(0, 16)) for _ in range(rng.range(0, 3)))
         tx.vin[0].script_sig = pushes + S.push(red)
+    elif kind == "p2sh-empty":
+        # the empty redeem script: the scriptSig ends with OP_0 after some other pushes
+        spk = bytes([0xa9, 0x14]) + T.hash160(b"") + bytes([0x87])
+        fund = funding(spk)
+        tx = spending_skeleton(fund, rng)
+        pushes = b"".join(rng.choice([S.push_num(rng.range(1, 16)), S.push(rng.bytes(rng.range(2, 20)))]) for _ in range(rng.range(1, 3)))
+        tx.vin[0].script_sig = pushes + b"\x00"
     elif kind == "legacy-codesep":
         ss = build_sig_script(rng, xonly=False, allow_codesep="any", fill=True)
         spk = ss.raw()
